@@ -321,18 +321,18 @@ theorem LGaps_T0 : LGaps T0 26 := by
   constructor <;> intro x _ <;> exact T0_edge_catch _ (by decide) (by decide)
 theorem KAllOk_T0 : KAllOk T0 26 := by
   constructor
-  · intro k _ _; exact ⟨by show inI32 0; decide, fun _ => rfl, fun _ => rfl⟩
-  · intro k _ _; show (0:ℝ) ≤ 1.0e-6; norm_num
+  intro k _ _; exact ⟨by show inI32 0; decide, fun _ => rfl, fun _ => rfl⟩
 theorem JTame_T0 (k : Int) (h0 : 0 ≤ k) (h1 : k < 9) (E : ℝ) : JTame (JGen.CS_Photo_Partial (JTables.ofC T0) 26 k E) := by
   right
   jeq_startJ JGen.CS_Photo_Partial JGen.CSb_Photo_Partial
   have hk : ¬ (k < 0 ∨ k ≥ 31) := by omega
+  have h28 : ¬ k ≥ 28 := by omega
   by_cases hE : E ≤ 0
   · jeq_simp; exact ⟨_, rfl⟩
   jeq_simp
   have e : T0.Electron_Config_Kissel = fun _ _ => (0 : ℝ) := rfl
   have p : (0:ℝ) < 10e-7 := by norm_num
-  simp only [e, p, ↓reduceIte, jbind_ok, jbind_error]
+  simp only [e, p, h28, decide_true, ↓reduceIte, jbind_ok, jbind_error]
   exact ⟨_, rfl⟩
 example : inI32 (T0.NE_Photo (26 : Int).toNat) := by decide
 /-- the L-beta statement with all its hypotheses discharged -/
